@@ -17,6 +17,8 @@
  *        b NON GET /b (large body, block 0)   n NON GET /b Block2 num 1
  *        B NON GET /b Block2 num 1 with an ETag that does not match
  *        x 3-byte runt         v wrong protocol version     e empty CON (ping)
+ *        p q P  NON PUT /w Block1 block 0 (more), block 1 (more), block 2 (last): a block-wise
+ *          upload whose reassembly state hangs off the session
  *        m NON GET /r sent to the multicast address 224.0.1.187 (response delayed by a queue
  *          node for a random leisure time)
  *   ack:<p> rst:<p>   ACK / RST for the oldest unanswered CON the server sent to p
@@ -266,6 +268,12 @@ static void h_async(coap_resource_t *r, coap_session_t *s, const coap_pdu_t *req
   coap_pdu_set_code(resp, COAP_RESPONSE_CODE_CONTENT);
   coap_add_data(resp, 4, (const uint8_t *)"done");
 }
+static void h_put(coap_resource_t *r, coap_session_t *s, const coap_pdu_t *req,
+                  const coap_string_t *q, coap_pdu_t *resp) {
+  (void)r; (void)req; (void)q;
+  note_handler(s);
+  coap_pdu_set_code(resp, COAP_RESPONSE_CODE_CHANGED);
+}
 static uint8_t big_body[2500];
 static void h_big(coap_resource_t *r, coap_session_t *s, const coap_pdu_t *req,
                   const coap_string_t *q, coap_pdu_t *resp) {
@@ -320,10 +328,36 @@ static unsigned peer_mid[MAXP];
 static size_t answered_upto[MAXP];   /* vn_out index below which CONs to p are answered */
 
 static size_t put_opt(uint8_t *b, unsigned *last, unsigned num, const uint8_t *v, size_t len) {
-  b[0] = (uint8_t)(((num - *last) << 4) | len);     /* deltas and lengths < 13 only */
-  memcpy(b + 1, v, len);
+  unsigned d = num - *last;                 /* deltas < 269, lengths < 13 only */
+  size_t n = 0;
+  if (d < 13) {
+    b[n++] = (uint8_t)((d << 4) | len);
+  } else {
+    b[n++] = (uint8_t)((13 << 4) | len);
+    b[n++] = (uint8_t)(d - 13);
+  }
+  memcpy(b + n, v, len);
   *last = num;
-  return 1 + len;
+  return n + len;
+}
+
+/* NON PUT /w with Block1 (16-byte blocks): block <num>, more flag */
+static size_t mk_put(uint8_t *b, int p, int num, int more) {
+  size_t n = 0;
+  unsigned mid = ++peer_mid[p];
+  b[n++] = (uint8_t)(0x40 | 0x10 | 2);
+  b[n++] = COAP_REQUEST_CODE_PUT;
+  b[n++] = (uint8_t)(mid >> 8);
+  b[n++] = (uint8_t)mid;
+  b[n++] = (uint8_t)(0xB0 + (p >> 6));
+  b[n++] = (uint8_t)p;
+  unsigned last = 0;
+  n += put_opt(b + n, &last, COAP_OPTION_URI_PATH, (const uint8_t *)"w", 1);
+  uint8_t v = (uint8_t)((num << 4) | (more ? 8 : 0));
+  n += put_opt(b + n, &last, COAP_OPTION_BLOCK1, &v, 1);
+  b[n++] = 0xff;
+  for (int i = 0; i < 16; i++) b[n++] = (uint8_t)('A' + i);
+  return n;
 }
 
 static size_t mk_request(uint8_t *b, int p, int con, const char *path, int observe,
@@ -456,7 +490,7 @@ static void run_history(void) {
   va_on_free = on_free;
 
   g_ctx = coap_new_context(NULL);
-  coap_context_set_block_mode(g_ctx, COAP_BLOCK_USE_LIBCOAP);
+  coap_context_set_block_mode(g_ctx, COAP_BLOCK_USE_LIBCOAP | COAP_BLOCK_SINGLE_BODY);
   coap_context_set_session_timeout(g_ctx, timeout);
   coap_context_set_max_idle_sessions(g_ctx, maxidle);
   coap_register_event_handler(g_ctx, on_event);
@@ -466,13 +500,18 @@ static void run_history(void) {
   add_res("h", h_hold, 0, 0);
   add_res("a", h_async, 0, 0);
   add_res("b", h_big, 0, 0);
+  {
+    coap_resource_t *w = coap_resource_init(coap_make_str_const("w"), 0);
+    coap_register_request_handler(w, COAP_REQUEST_PUT, h_put);
+    coap_add_resource(g_ctx, w);
+  }
   add_res("o", h_plain, 1, COAP_RESOURCE_FLAGS_NOTIFY_NON);
   add_res("oc", h_plain, 1, COAP_RESOURCE_FLAGS_NOTIFY_CON);
   snapshot();
 
   for (int i = 4; i < vntok && g_ctx; i++) {
     char *op = vtok[i];
-    uint8_t b[64];
+    uint8_t b[96];
     size_t n;
     if (!strncmp(op, "rx:", 3)) {
       int p = atoi(op + 3);
@@ -494,6 +533,9 @@ static void run_history(void) {
       case 'n': n = mk_request(b, p, 0, "b", -1, 1, -1); break;
       case 'B': n = mk_request(b, p, 0, "b", -1, 1, 0x7777); break;
       case 'm': n = mk_request(b, p, 0, "r", -1, -1, -1); mc = 1; break;
+      case 'p': n = mk_put(b, p, 0, 1); break;
+      case 'q': n = mk_put(b, p, 1, 1); break;
+      case 'P': n = mk_put(b, p, 2, 0); break;
       case 'x': b[0] = 0x40; b[1] = 1; b[2] = 0; n = 3; break;
       case 'v': n = mk_request(b, p, 0, "r", -1, -1, -1); b[0] = (uint8_t)((b[0] & 0x3f) | 0x80); break;
       case 'e': {
@@ -550,6 +592,13 @@ static void run_history(void) {
       int p = atoi(op + 5);
       coap_session_t *s = (p >= 0 && p < MAXP) ? live_session_of(p) : NULL;
       if (s) coap_session_disconnected(s, COAP_NACK_NOT_DELIVERABLE);
+    } else if (!strcmp(op, "freeep")) {
+      /* probe only (not generated): coap_free_endpoint() on a live context */
+      if (g_ep) {
+        coap_free_endpoint(g_ep);
+        vn_nnodes = 0;
+        g_ep = NULL;
+      }
     } else if (!strcmp(op, "free")) {
       explicit_free = 1;
       teardown();
